@@ -9,12 +9,16 @@ Witness classes
             c02:non-key-column-nullable-changed, c02:unique-flag-missing, c02:unique-flag-spurious,
             c02:multi-column-unique-member-flagged, c02:reference-missing, c02:reference-spurious, c02:reference-wrong,
             c02:column-check, c02:column-check-spurious, c02:table-checks, c02:named-<kind>-constraint, c02:phantom-constraint
-  narrow classes of inputs on which the unchanged tree violates the statement (decided from the generated input):
-            c02:named-single-column-unique-not-flagged, c02:single-column-unique-clause-before-its-column,
-            c02:column-named-columns-flagged-unique, c02:inline-references-followed-by-null-option,
-            c02:lowercase-sort-direction-in-pk-clause, c02:two-word-referential-action, c02:check-with-leading-equality
+  narrow classes of inputs on which the current tree violates the statement (decided from the generated input):
+            c02:early-single-column-unique-clause-followed-by-another-unique-clause  (un-named UNIQUE (c) written before the
+                definition of c, c not unique by any other declaration, and a later table-level UNIQUE clause in the same table),
+            c02:inline-single-equality-check-followed-by-option  (column CHECK (<col> = <value>), named or not, with a further option after it),
+            c02:lowercase-sort-direction-in-pk-clause, c02:two-word-referential-action
+  accepted either way: a REFERENCES option directly followed by NULL / NOT NULL reports the referenced column as `columns: [k]`
+  (pinned by the repository's own test_reference_not_null) instead of `column: k`
 """
 import itertools
+import random
 
 from bounded.common import MODES, entities, parse
 
@@ -32,14 +36,12 @@ TYPES = [("int", "int", None), ("bigint", "bigint", None), ("varchar(10)", "varc
          ("text", "text", None), ("timestamp", "timestamp", None), ("date", "date", None), ("char(1)", "char", 1)]
 DEFAULTS = [("0", 0), ("42", 42), ("'abc'", "'abc'"), ("now()", "now()")]
 OPS = [">", "<", ">=", "<=", "<>", "!="]
+OPS_EQ = OPS + ["=", "="]
 
-D_NAMED_UNIQUE = "c02:named-single-column-unique-not-flagged"
-D_EARLY_UNIQUE = "c02:single-column-unique-clause-before-its-column"
-D_COLUMNS_NAME = "c02:column-named-columns-flagged-unique"
-D_REF_NULL = "c02:inline-references-followed-by-null-option"
+D_EARLY_UNIQUE = "c02:early-single-column-unique-clause-followed-by-another-unique-clause"
 D_LOWER_DIR = "c02:lowercase-sort-direction-in-pk-clause"
 D_TWO_WORD = "c02:two-word-referential-action"
-D_CHECK_EQ = "c02:check-with-leading-equality"
+D_CHECK_EQ = "c02:inline-single-equality-check-followed-by-option"
 
 
 # ------------------------------------------------------------------ abstract model
@@ -159,7 +161,7 @@ def expect(t):
     assert len(pkc) <= 1 and not (pkc and inline_pk), "one source of primary key per table"
     pk = list(pkc[0]["cols"]) if pkc else inline_pk
     E = dict(pk=pk, pk_leaky=None, cols={}, checks=[], cons=dict(primary_keys=[], uniques=[], references=[], checks=[]), anon_multi=[],
-             any_uniq_clause=False, features=set())
+             features=set())
     if pkc:
         leaky = []
         for c, d in zip(pkc[0]["cols"], pkc[0]["dirs"]):
@@ -180,18 +182,24 @@ def expect(t):
                     E["features"].add(D_TWO_WORD)
             elif o[0] == "check":
                 chk = (o[1], expr_text(o[2]))
-                if o[2][1] == "=" and i + 1 < len(c["opts"]):
+                if len(o[2]) == 3 and o[2][1] == "=" and i + 1 < len(c["opts"]):
                     E["features"].add(D_CHECK_EQ)
         E["cols"][c["name"]] = dict(nullable=not ("nn" in kinds or c["name"] in pk), reasons={"inline"} if ("uniq" in kinds or "uniqkey" in kinds) else set(),
                                     ref=ref, ref_then_null=ref_then_null, check=chk, multi_member=False)
+    uniq_idx = [i for i, cl in clauses if cl["kind"] == "uniq"]
     for idx, cl in clauses:
         assert cl["cols"] or cl["kind"] == "check"
         assert all(c in E["cols"] for c in cl["cols"]) and len(set(cl["cols"])) == len(cl["cols"])
         if cl["kind"] == "uniq":
-            E["any_uniq_clause"] = True
             if len(cl["cols"]) == 1:
                 c = cl["cols"][0]
-                E["cols"][c]["reasons"].add("named" if cl["name"] else ("clause-after" if pos[c] < idx else "clause-before"))
+                if cl["name"]:
+                    why = "named"
+                elif pos[c] < idx:
+                    why = "clause-after"
+                else:  # written before the column definition: is there a later table-level UNIQUE clause (named or not, any arity)?
+                    why = "clause-before-last" if idx == uniq_idx[-1] else "clause-before-followed"
+                E["cols"][c]["reasons"].add(why)
             else:
                 for c in cl["cols"]:
                     E["cols"][c]["multi_member"] = True
@@ -218,8 +226,6 @@ def expect(t):
             E["checks"].append((cl["name"], expr_text(cl["expr"])))
             if cl["name"]:
                 E["cons"]["checks"].append(dict(constraint_name=cl["name"], statement=expr_text(cl["expr"])))
-            if cl["expr"][1] == "=":
-                E["features"].add(D_CHECK_EQ)
     return E
 
 
@@ -266,17 +272,13 @@ def judge(t, E, got, mode=None):
         # --- unique
         exp_u, obs_u = bool(e["reasons"]), c.get("unique")
         if exp_u and obs_u is not True:
-            if e["reasons"] & {"inline", "clause-after"}:
-                cls = "c02:unique-flag-missing"
-            elif "named" in e["reasons"]:  # sole column of a named UNIQUE constraint and not flagged by any sound route
-                cls = D_NAMED_UNIQUE
-            else:  # only by an un-named single-column UNIQUE clause written before the column definition
+            if e["reasons"] == {"clause-before-followed"}:
                 cls = D_EARLY_UNIQUE
+            else:
+                cls = "c02:unique-flag-missing"
             P.append((cls, dict(facet="unique", column=n, observed=obs_u, expected=True, declared_by=sorted(e["reasons"]))))
         elif not exp_u and obs_u is not False:
-            if n == "columns" and E["any_uniq_clause"]:
-                cls = D_COLUMNS_NAME
-            elif e["multi_member"]:
+            if e["multi_member"]:
                 cls = "c02:multi-column-unique-member-flagged"
             else:
                 cls = "c02:unique-flag-spurious"
@@ -290,12 +292,10 @@ def judge(t, E, got, mode=None):
             P.append(("c02:reference-missing", dict(facet="references", column=n, observed=gref, expected=e["ref"])))
         else:
             obs = {k: gref.get(k) for k in ("table", "schema", "column", "on_delete", "on_update")}
+            if e["ref_then_null"] and "column" not in gref and isinstance(gref.get("columns"), list) and len(gref["columns"]) == 1:
+                obs["column"] = gref["columns"][0]  # REFERENCES ... directly followed by [NOT] NULL: either shape is accepted
             if obs != e["ref"]:
-                cls = "c02:reference-wrong"
-                if e["ref_then_null"] and "column" not in gref and isinstance(gref.get("columns"), list) and len(gref["columns"]) == 1 \
-                        and dict(obs, column=gref["columns"][0]) == e["ref"]:
-                    cls = D_REF_NULL
-                P.append((cls, dict(facet="references", column=n, observed=gref, expected=e["ref"])))
+                P.append(("c02:reference-wrong", dict(facet="references", column=n, observed=gref, expected=e["ref"])))
         # --- inline check
         gchk = c.get("check")
         if e["check"] is None:
@@ -374,12 +374,23 @@ def run_case(ck, set_name, key, tables, mode=None):
             for t, E, got in zip(tables, exps, ents):
                 for cls, d in judge(t, E, got, mode):
                     problems.append((cls, dict(d, table=t["name"])))
+    feats = sorted(set().union(*[E["features"] for E in exps]))
+    if feats and problems:  # inputs of a class on which the whole statement is lost: everything maps to that class
+        problems = [("+".join(feats), d) for _, d in problems]
+    # bookkeeping: how many inputs belong to each narrow class (decided from the input alone) and how many of them fail under it
+    member = set(["+".join(feats)] if feats else [])
+    for E in exps:
+        if E["pk_leaky"] is not None:
+            member.add(D_LOWER_DIR)
+        if any(e["reasons"] == {"clause-before-followed"} for e in E["cols"].values()):
+            member.add(D_EARLY_UNIQUE)
+    for m in sorted(member):
+        st = ck.notes.setdefault("inputs_in_narrow_classes", {}).setdefault(m, dict(inputs=0, failing_under_that_class=0))
+        st["inputs"] += 1
+        st["failing_under_that_class"] += 1 if any(c == m for c, _ in problems) else 0
     if not problems:
         ck.ok(set_name, key, dict(ddl=ddl[:300]))
         return True
-    feats = sorted(set().union(*[E["features"] for E in exps]))
-    if feats:  # inputs of a class on which the whole statement is known to be lost: everything maps to that class
-        problems = [("+".join(feats), d) for _, d in problems]
     seen = []
     for cls, d in problems:
         if cls in seen:
@@ -421,14 +432,23 @@ def some_ref(rnd, n, acts=None, allow_bare=True):
 
 
 def some_expr(rnd, cols, k):
-    """comparison fragment only; '=' is kept out (see D_CHECK_EQ)"""
+    """comparison fragment (table-level CHECK): col op number | col op col | comparison AND comparison, op incl. '='"""
     c = rnd.choice(cols)
     form = rnd.randrange(4)
     if form == 0 and len(cols) > 1:
-        return (c, rnd.choice(OPS), rnd.choice([x for x in cols if x != c]))
+        return (c, rnd.choice(OPS_EQ), rnd.choice([x for x in cols if x != c]))
     if form == 1:
-        return (c, rnd.choice(OPS[:4]), 100 + k, "AND", rnd.choice(cols), rnd.choice(OPS[:4]), 1000 + k)
-    return (c, rnd.choice(OPS), 100 + k)
+        return (c, rnd.choice(OPS_EQ[:4] + ["="]), 100 + k, "AND", rnd.choice(cols), rnd.choice(OPS_EQ[:4] + ["="]), 1000 + k)
+    return (c, rnd.choice(OPS_EQ), 100 + k)
+
+
+def eq_check_last(opts):
+    """an inline CHECK (<col> = <value>) is only generated as the LAST option of its column outside the dedicated set (see D_CHECK_EQ)"""
+    for i, o in enumerate(opts):
+        if o[0] == "check" and len(o[2]) == 3 and o[2][1] == "=" and i + 1 < len(opts):
+            opts.append(opts.pop(i))
+            break
+    return opts
 
 
 def gen_grid(ck):
@@ -513,17 +533,14 @@ def gen_combos(ck):
             elif fkf[0] == "clause":
                 clauses.append(mk_clause("fk", [cols[i] for i in fkf[1]], "fk_c" if fkf[2] else None, ref=some_ref(rnd, len(fkf[1]))))
             if ckf[0] == "inline":
-                opts[3].append(("check", "ck_i" if ckf[1] else None, (cols[3], rnd.choice(OPS), 7)))
+                opts[3].append(("check", "ck_i" if ckf[1] else None, (cols[3], rnd.choice(OPS_EQ), 7)))
             elif ckf[0] == "clause":
                 clauses.append(mk_clause("check", [], "ck_c" if ckf[1] else None, expr=some_expr(rnd, cols, ci)))
             for i in range(4):
                 if rnd.random() < 0.25 and not any(o[0] in ("pk",) for o in opts[i]):
-                    opts[i].insert(0, ("nn",))  # in front: a null option directly after REFERENCES is a separate input class
+                    opts[i].append(("nn",))
                 rnd.shuffle(opts[i])
-                # keep 'nn' away from directly after a ref (that input class is exercised in the option-order set)
-                ks = [o[0] for o in opts[i]]
-                if "ref" in ks and "nn" in ks and ks.index("nn") == ks.index("ref") + 1:
-                    opts[i].reverse()
+                eq_check_last(opts[i])
             rnd.shuffle(clauses)
             els = [("col", mk_col(cols[i], TYPES[(ci + i) % len(TYPES)], opts[i])) for i in range(4)]
             for cl in clauses:
@@ -553,7 +570,7 @@ def gen_option_orders(ck):
         for posn in ((si % 3,) if ck.quick() and len(seq) == 3 else range(3)):
             tname, o1, o2 = names.take(3)
             opts = []
-            for kd in seq:
+            for ki, kd in enumerate(seq):
                 if kd in ("nn", "null", "pk", "uniq"):
                     opts.append((kd,) if not (kd == "uniq" and si % 9 == 0) else ("uniqkey",))
                 elif kd == "default":
@@ -564,7 +581,7 @@ def gen_option_orders(ck):
                 elif kd == "refact":
                     opts.append(("ref", some_ref(rnd, 1, acts=[(ev, rnd.choice(ACTIONS)) for ev in rnd.choice([["DELETE"], ["UPDATE"], ["DELETE", "UPDATE"], ["UPDATE", "DELETE"]])], allow_bare=False)))
                 else:
-                    opts.append(("check", "ck_%d" % si if kd == "ncheck" else None, (tname, rnd.choice(OPS), 3 + si)))
+                    opts.append(("check", "ck_%d" % si if kd == "ncheck" else None, (tname, rnd.choice(OPS_EQ if ki == len(seq) - 1 else OPS), 3 + si)))
             target = mk_col(tname, TYPES[(si + posn) % len(TYPES)], opts)
             others = [mk_col(o1, TYPES[0], []), mk_col(o2, TYPES[2], [("nn",)])]
             cs = others[:posn] + [target] + others[posn:]
@@ -574,8 +591,7 @@ def gen_option_orders(ck):
 
 def rand_table(rnd, tname, big, clean=False):
     n = rnd.randint(2, 10 if big else 7)
-    pool = COL_POOL if not clean else [w for w in COL_POOL if w != "columns"]
-    cols = rnd.sample(pool, n)
+    cols = rnd.sample(COL_POOL, n)
     pk_mode = rnd.choice(["none", "inline", "inline1", "clause", "named"])
     opts = {c: [] for c in cols}
     ck_id = [0]
@@ -605,13 +621,9 @@ def rand_table(rnd, tname, big, clean=False):
             o.append(("ref", some_ref(rnd, 1)))
             has_ref.add(c)
         if rnd.random() < 0.2:
-            o.append(("check", cname("ic") if rnd.random() < 0.4 else None, (c, rnd.choice(OPS), rnd.randint(1, 99))))
+            o.append(("check", cname("ic") if rnd.random() < 0.4 else None, (c, rnd.choice(OPS_EQ), rnd.randint(1, 99))))
         rnd.shuffle(o)
-        if clean:  # keep the null option away from directly after REFERENCES
-            ks = [x[0] for x in o]
-            for nk in ("nn", "null"):
-                if "ref" in ks and nk in ks and ks.index(nk) == ks.index("ref") + 1:
-                    o.reverse()
+        eq_check_last(o)
     clauses = []
     if pk_mode in ("clause", "named"):
         sel = rnd.sample(cols, rnd.randint(1, min(5, n)))
@@ -623,8 +635,6 @@ def rand_table(rnd, tname, big, clean=False):
         named = rnd.random() < 0.5
         if kind == "uniq":
             sel = rnd.sample(cols, rnd.randint(1, min(5, n)))
-            if clean and len(sel) == 1 and named:
-                sel = rnd.sample(cols, 2)
             if not named and len(sel) > 1:
                 if sel in seen_anon:
                     continue
@@ -641,7 +651,7 @@ def rand_table(rnd, tname, big, clean=False):
         else:
             clauses.append(mk_clause("check", [], cname("ck") if named else None, expr=some_expr(rnd, cols, rnd.randint(1, 50))))
     els = [("col", mk_col(c, rnd.choice(TYPES), opts[c])) for c in cols]
-    at_end = clean or rnd.random() < 0.4
+    at_end = clean or rnd.random() < 0.4  # clean: every declaration after the columns (outside D_EARLY_UNIQUE by construction)
     for cl in clauses:
         els.insert(len(els) if at_end else rnd.randint(1, len(els)), ("clause", cl))
     return mk_table(tname, els, schema=rnd.choice([None, None, "s1", "Sch"]), layout=rnd.randrange(3), lower=rnd.random() < 0.15, tight=rnd.random() < 0.15)
@@ -713,16 +723,45 @@ def gen_special(ck):
                 else:
                     els = [("col", mk_col("a")), ("col", mk_col("b")), ("clause", mk_clause("fk", ["a"], "fk_a" if form == "named" else None, ref=ref))]
                 run_case(ck, "two-word-referential-actions", (act, ev, form), [mk_table("tw", els, layout=1)])
-    # CHECK (<col> = <value>)
+    # CHECK (<col> = <value>): table-level / named / last inline option must be reported; a further option after the inline form is D_CHECK_EQ
+    follow = {"nn": ("nn",), "null": ("null",), "uniq": ("uniq",), "pk": ("pk",), "default": ("default", "0", 0), "ref": ("ref", mk_ref("r", ["x"]))}
     for rhs in (4, "b", "'x'"):
-        for form in ("clause", "named-clause", "inline-then-option", "inline-last"):
-            if form in ("clause", "named-clause"):
-                els = [("col", mk_col("a")), ("col", mk_col("b")), ("clause", mk_clause("check", [], "ck_e" if form == "named-clause" else None, expr=("a", "=", rhs)))]
-            elif form == "inline-then-option":
-                els = [("col", mk_col("a", opts=[("check", None, ("a", "=", rhs)), ("nn",)])), ("col", mk_col("b"))]
-            else:
-                els = [("col", mk_col("a", opts=[("nn",), ("check", None, ("a", "=", rhs))])), ("col", mk_col("b"))]
-            run_case(ck, "check-with-equality", (rhs, form), [mk_table("ceq", els, layout=1)])
+        for named in (False, True):
+            nm = "ck_e" if named else None
+            for posn in (1, 2):
+                els = [("col", mk_col("a")), ("col", mk_col("b"))]
+                els.insert(posn, ("clause", mk_clause("check", [], nm, expr=("a", "=", rhs))))
+                run_case(ck, "check-with-equality", (rhs, named, "clause", posn), [mk_table("ceq", els, layout=posn)])
+            for fk, fo in follow.items():
+                for order in ("check-then-option", "option-then-check", "compound-check-then-option"):
+                    chk = ("check", nm, ("a", "=", rhs) if order != "compound-check-then-option" else ("a", "=", rhs, "AND", "b", ">", 5))
+                    opts = [fo, chk] if order == "option-then-check" else [chk, fo]
+                    els = [("col", mk_col("a", opts=opts)), ("col", mk_col("b"))]
+                    run_case(ck, "check-with-equality", (rhs, named, order, fk), [mk_table("ceq", els, layout=1)])
+    # an un-named UNIQUE (c) written before the definition of c: flagged when it is the table's last UNIQUE clause, D_EARLY_UNIQUE when another follows
+    for later in (None, ("uniq", 1, False), ("uniq", 2, False), ("uniq", 1, True), ("uniq", 3, True), ("pk", 1, False), ("fk", 1, False), ("check", 0, True)):
+        for lpos in ("adjacent", "end"):
+            for rescue in (None, "inline", "named", "clause-after"):
+                if later is None and lpos == "end":
+                    continue
+                cols = ["a", "b", "c", "d"]
+                els = [("col", mk_col("a")), ("clause", mk_clause("uniq", ["b"])), ("col", mk_col("b", opts=[("uniq",)] if rescue == "inline" else [])),
+                       ("col", mk_col("c")), ("col", mk_col("d"))]
+                if later is not None:
+                    kind, ar, named = later
+                    sel = ["a", "c", "d"][:ar]
+                    if kind == "fk":
+                        cl = mk_clause("fk", sel, None, ref=mk_ref("r", ["x"]))
+                    elif kind == "check":
+                        cl = mk_clause("check", [], "ck_l", expr=("a", ">", 1))
+                    else:
+                        cl = mk_clause(kind, sel, ("%s_l" % kind) if named else None)
+                    els.insert(2 if lpos == "adjacent" else len(els), ("clause", cl))
+                if rescue == "named":
+                    els.append(("clause", mk_clause("uniq", ["b"], "u_b")))
+                elif rescue == "clause-after":
+                    els.append(("clause", mk_clause("uniq", ["b"])))
+                run_case(ck, "early-single-column-unique-clause", (later, lpos, rescue), [mk_table("eu", els, layout=0)])
     # single-column UNIQUE: named, and un-named at every position relative to its column; a column named `columns` next to UNIQUE clauses
     for n in (2, 3, 4):
         cols = ["a", "b", "c", "d"][:n]
@@ -785,7 +824,18 @@ def gen_special(ck):
                 run_case(ck, "wide-declarations", (kind, named, ar, rot), [mk_table("wide_t", els, layout=0)])
 
 
+class _Ck:
+    """the harness checker with a private generator seeded from ck.rnd: Checker.ok draws from ck.rnd while it collects samples, which
+    would make the generated inputs depend on earlier verdicts; with this the inputs depend on VERIF_SEED only"""
+
+    def __init__(self, ck):
+        self._ck, self.notes = ck, ck.notes
+        self.rnd = random.Random(ck.rnd.getrandbits(64))
+        self.quick, self.ok, self.fail = ck.quick, ck.ok, ck.fail
+
+
 def check(ck):
+    ck = _Ck(ck)
     gen_grid(ck)
     gen_combos(ck)
     gen_option_orders(ck)
